@@ -1591,9 +1591,15 @@ def propagate_attr_copies(tree: ast.Module) -> int:
                     root = _attr_chain_root(chain)
                     if root is None or root == x.id or x.id in banned or stores.get(x.id, 0) != 1 or root in ("self", "cls") and False:
                         continue
-                    # the root is a parameter / a single binding (loop target counted as one store)
+                    # the root is a parameter / a single binding (loop target counted as one store) - or, for a
+                    # function-level alias, is not re-bound between the alias and its last use
                     if stores.get(root, 0) > 1:
-                        continue
+                        uses_ = [n for n in order if n.id == x.id and isinstance(n.ctx, ast.Load)]
+                        if parent_loop.get(id(st)) is not None or not uses_:
+                            continue
+                        last_ = max(pos[id(u)] for u in uses_)
+                        if any(n.id == root and not isinstance(n.ctx, ast.Load) and pos[id(x)] < pos[id(n)] <= last_ for n in order):
+                            continue
                     if root in banned and not any(isinstance(a, ast.arg) and a.arg == root for a in ast.walk(fn.args)):
                         continue
                     # no attribute on the chain (or below it) is assigned in this function
@@ -1605,13 +1611,18 @@ def propagate_attr_copies(tree: ast.Module) -> int:
                         continue
                     loop = parent_loop.get(id(st))
                     if loop is None:
-                        # function-level classifications (`is_symlink = meta.is_link`) are what rules anchor on: kept
-                        continue
+                        # function-level classifications (`is_symlink = meta.is_link`) are what rules anchor on: kept.
+                        # A bound method hoisted for speed (`add = tree.add ... add(x)`), used for nothing but calls, is put back.
+                        call_funcs = {id(c.func) for c in ast.walk(fn) if isinstance(c, ast.Call)}
+                        if not all(id(u) in call_funcs for u in uses):
+                            continue
                     if any(not _inside(parent_loop, u, loop) for u in uses):
                         continue
                     # a method called on the root object (or on something along the chain) may change the attribute
                     pure = ("get", "items", "keys", "values", "startswith", "endswith", "join", "split", "copy", "isdir", "to_dict", "as_dict")
-                    if any(isinstance(c, ast.Call) and isinstance(c.func, ast.Attribute) and _attr_chain_root(c.func) == root and c.func.attr not in pure
+                    call_funcs_ = {id(c.func) for c in ast.walk(fn) if isinstance(c, ast.Call)}
+                    only_called = all(id(u) in call_funcs_ for u in uses)  # a bound method: other method calls do not replace it
+                    if not only_called and any(isinstance(c, ast.Call) and isinstance(c.func, ast.Attribute) and _attr_chain_root(c.func) == root and c.func.attr not in pure
                            and (norm_attr(c.func.value) == root or ctxt.startswith(norm_attr(c.func.value) + ".") or norm_attr(c.func.value) == ctxt) for c in ast.walk(fn)):
                         continue
                     found = (lst, st, x.id, chain)
@@ -1629,6 +1640,115 @@ def propagate_attr_copies(tree: ast.Module) -> int:
                 def visit_Name(self, n):
                     if n.id == name and isinstance(n.ctx, ast.Load):
                         return ast.copy_location(copy.deepcopy(chain), n)
+                    return n
+
+            R().visit(fn)
+            ast.fix_missing_locations(fn)
+            total += 1
+    return total
+
+
+def _pure_hoistable(e: ast.AST) -> bool:
+    if isinstance(e, (ast.Name, ast.Constant)):
+        return True
+    if isinstance(e, ast.Attribute):
+        return _pure_hoistable(e.value)
+    if isinstance(e, ast.BinOp):
+        return _pure_hoistable(e.left) and _pure_hoistable(e.right)
+    if isinstance(e, ast.UnaryOp):
+        return _pure_hoistable(e.operand)
+    if isinstance(e, ast.Call):
+        return isinstance(e.func, ast.Name) and e.func.id == "len" and len(e.args) == 1 and not e.keywords and _pure_hoistable(e.args[0])
+    if isinstance(e, ast.Tuple):
+        return all(_pure_hoistable(x) for x in e.elts)
+    return False
+
+
+def propagate_pure_hoists(tree: ast.Module) -> int:
+    """`sep = fs.sep; n = len(path) + 1; for ...: root[n:].split(sep)`  ->  `root[len(path) + 1:].split(fs.sep)`:
+    a loop invariant hoisted into a function-level local is put back, provided the local is bound once by a top-level
+    statement to a pure expression (names, attributes, arithmetic, len()) over names that are never re-bound after it,
+    no attribute it reads is assigned in the function, it is read at least once inside a loop, and it is never used as
+    a bare truth value (classifications such as `is_symlink = meta.is_link` are what rules anchor on and stay)."""
+    total = 0
+    for fn in ast.walk(tree):
+        if not isinstance(fn, (ast.FunctionDef, ast.AsyncFunctionDef)):
+            continue
+        params = {a.arg for a in fn.args.posonlyargs + fn.args.args + fn.args.kwonlyargs}
+        for _ in range(12):
+            loads, stores, banned = _name_counts(fn)
+            order = _ordered_names(fn)
+            pos = {id(n): i for i, n in enumerate(order)}
+            attr_stores = {norm_attr(x) for x in ast.walk(fn) if isinstance(x, ast.Attribute) and not isinstance(x.ctx, ast.Load)}
+            truthy = set()
+            for x in ast.walk(fn):
+                tests = []
+                if isinstance(x, (ast.If, ast.While, ast.IfExp, ast.Assert)):
+                    tests.append(x.test)
+                if isinstance(x, ast.BoolOp):
+                    tests += x.values
+                if isinstance(x, ast.UnaryOp) and isinstance(x.op, ast.Not):
+                    tests.append(x.operand)
+                if isinstance(x, ast.comprehension):
+                    tests += x.ifs
+                for t in tests:
+                    if isinstance(t, ast.Name):
+                        truthy.add(t.id)
+            in_loop = set()
+            for lp in ast.walk(fn):
+                if isinstance(lp, (ast.For, ast.While, ast.AsyncFor, ast.ListComp, ast.SetComp, ast.DictComp, ast.GeneratorExp)):
+                    for y in ast.walk(lp):
+                        if isinstance(y, ast.Name) and isinstance(y.ctx, ast.Load):
+                            in_loop.add(id(y))
+            nested = {y.id for d in ast.walk(fn) if d is not fn and isinstance(d, (ast.FunctionDef, ast.AsyncFunctionDef, ast.Lambda)) for y in ast.walk(d) if isinstance(y, ast.Name)}
+            found = None
+            for i_, st in enumerate(fn.body):
+                if not (isinstance(st, ast.Assign) and len(st.targets) == 1 and isinstance(st.targets[0], ast.Name)):
+                    continue
+                x, v = st.targets[0], st.value
+                if isinstance(v, (ast.Name, ast.Constant)) or not _pure_hoistable(v):
+                    continue
+                if x.id in banned or x.id in params or stores.get(x.id, 0) != 1 or x.id in truthy or x.id in nested:
+                    continue
+                names = [y for y in ast.walk(v) if isinstance(y, ast.Name)]
+                okn = True
+                for y in names:
+                    if y.id == x.id or y.id in nested:
+                        okn = False
+                    elif y.id in params:
+                        # the parameter is not re-bound after this statement
+                        if any(n.id == y.id and not isinstance(n.ctx, ast.Load) and pos[id(n)] > pos[id(x)] for n in order):
+                            okn = False
+                    elif stores.get(y.id, 0) == 0:
+                        pass  # a global / builtin
+                    elif stores.get(y.id, 0) == 1:
+                        if any(n.id == y.id and not isinstance(n.ctx, ast.Load) and pos[id(n)] > pos[id(x)] for n in order):
+                            okn = False
+                    else:
+                        # re-bound somewhere: only fine when every store precedes this statement
+                        if any(n.id == y.id and not isinstance(n.ctx, ast.Load) and pos[id(n)] > pos[id(x)] for n in order):
+                            okn = False
+                if not okn:
+                    continue
+                chains = [norm_attr(a) for a in ast.walk(v) if isinstance(a, ast.Attribute)]
+                if any(a == c or a.startswith(c + ".") or c.startswith(a + ".") for a in attr_stores for c in chains):
+                    continue
+                uses = [n for n in order if n.id == x.id and isinstance(n.ctx, ast.Load)]
+                if not uses or any(pos[id(u)] < pos[id(x)] for u in uses) or not any(id(u) in in_loop for u in uses):
+                    continue
+                found = (st, x.id, v)
+                break
+            if not found:
+                break
+            st, name, val = found
+            fn.body.remove(st)
+            if not fn.body:
+                fn.body.append(ast.Pass())
+
+            class R(ast.NodeTransformer):
+                def visit_Name(self, n):
+                    if n.id == name and isinstance(n.ctx, ast.Load):
+                        return ast.copy_location(copy.deepcopy(val), n)
                     return n
 
             R().visit(fn)
